@@ -263,6 +263,29 @@ pub fn check_input(ctx: &mut Ctx, input: &[u8], full: bool) {
     tally!(bytes_type!(ctx, input, full, "uri::Fragment", uri::Fragment, uri::FragmentBuf, Prod::Fragment));
     tally!(bytes_type!(ctx, input, full, "Scheme", uri::Scheme, uri::SchemeBuf, Prod::Scheme));
     tally!(bytes_type!(ctx, input, full, "Port", uri::Port, uri::PortBuf, Prod::Port));
+    if full && utf8 {
+        // conversions are construction routes too: a URI (reference) obtained from an IRI (reference)
+        let s = std::str::from_utf8(input).unwrap();
+        let wu = abnf::accepts_bytes(Prod::Ri, input, false);
+        let wur = abnf::accepts_bytes(Prod::RiRef, input, false);
+        let wi = abnf::accepts_bytes(Prod::Ri, input, true);
+        if let Ok(r) = iref::IriRefBuf::new(s.to_string()) {
+            verdict(ctx, "Uri", "IriRefBuf::try_into_uri", input, wu, r.clone().try_into_uri().is_ok());
+            verdict(ctx, "UriRef", "IriRefBuf::try_into_uri_ref", input, wur, r.clone().try_into_uri_ref().is_ok());
+            verdict(ctx, "Iri", "IriRefBuf::try_into_iri", input, wi, r.clone().try_into_iri().is_ok());
+            verdict(ctx, "Uri", "IriRef::as_uri", input, wu, r.as_uri().is_some());
+            verdict(ctx, "UriRef", "IriRef::as_uri_ref", input, wur, r.as_uri_ref().is_some());
+            verdict(ctx, "Iri", "IriRef::as_iri", input, wi, r.as_iri().is_some());
+        }
+        if let Ok(r) = iref::IriBuf::new(s.to_string()) {
+            verdict(ctx, "Uri", "IriBuf::try_into_uri", input, wu, r.clone().try_into_uri().is_ok());
+            verdict(ctx, "UriRef", "IriBuf::try_into_uri_ref", input, wur, r.clone().try_into_uri_ref().is_ok());
+        }
+        if let Ok(r) = iref::UriRefBuf::new(input.to_vec()) {
+            verdict(ctx, "Uri", "UriRefBuf::try_into_uri", input, wu, r.clone().try_into_uri().is_ok());
+            verdict(ctx, "Iri", "UriRefBuf::try_into_iri", input, wu, r.clone().try_into_iri().is_ok());
+        }
+    }
     if full || !utf8 {
         from_vec_type!(ctx, input, "IriBuf", iref::IriBuf, Prod::Ri);
         from_vec_type!(ctx, input, "IriRefBuf", iref::IriRefBuf, Prod::RiRef);
@@ -507,7 +530,7 @@ pub fn generate(ctx: &mut Ctx) {
         }
     }
     // ---- G-valid + G-mutate (random)
-    let n = ctx.by_tier(40_000u64, 3_000_000u64) / ctx.nshards;
+    let n = ctx.by_tier(200_000u64, 3_000_000u64) / ctx.nshards;
     for i in 0..n {
         let mut rng = ctx.rng("valid", i);
         let iri = rng.chance(1, 2);
